@@ -227,7 +227,7 @@ def gen(rng, tier):
             for b0 in FIRST:
                 heavy.append('exh %d %s %02x 2' % (bits, d, b0))
     # DER INTEGERs of 2 and 3 content octets: all of them (sign-byte rules), and 4 content octets behind a 00 pad
-    for bits in ((12, 16) if not thorough else (7, 8, 12, 16, 24, 60)):
+    for bits in ((12, 16) if not thorough else (7, 8, 12, 16, 32, 60)):
         heavy.append('exh %d der 0201 1' % bits)
         heavy.append('exh %d der 0202 2' % bits)
         heavy.append('exh %d der 020300 2' % bits)
@@ -243,7 +243,7 @@ def gen(rng, tier):
         for nd, ex in ((0, 0), (1, 0), (1, 1), (1, 2), (1, 0x7fff), (0, 0x7fff), (2, 1), (1, 0x7ffe)):
             heavy.append('exh %d pg_NUMERIC %04x%04x00000000 2' % (bits, nd, ex))
     light = []
-    n = 40000 if not thorough else 5000000
+    n = 40000 if not thorough else 10000000
     while len(light) < n:
         bits = rng.choice(WIDTHS if rng.random() < 0.6 else [7, 12, 60, 63, 65, 100, 250, 440, 448, 535])
         d = rng.choice(decs)
